@@ -20,14 +20,21 @@ fn selftest(args: &Args) {
         if rng.chance(1, 5) { cfg.gas_limit = rng.below(3000); }
         if rng.chance(1, 6) { cfg.features |= F_GARBAGE; }
         let scn = gen_scenario(&mut rng, &cfg);
-        let tr = match guarded(|| trace(&scn.world, &scn.tx, &TraceOpts::default())) {
-            Ok(Ok(t)) => t,
+        // hooks: pre peeks the word at $pc, post checks it is the step's raw word
+        let tr = match guarded(|| trace_hooked(&scn.world, &scn.tx, &TraceOpts::default(),
+                |vm, h| vm.memory().read(h.pc, 4usize).ok().map(|b| u32::from_be_bytes([b[0], b[1], b[2], b[3]])).unwrap_or(0),
+                |_, st, w| w == st.raw)) {
+            Ok(Ok((t, hk))) => {
+                let execs = t.steps.iter().filter(|s| s.kind == StepKind::Exec).count();
+                if hk.len() != execs || hk.iter().any(|(_, ok)| !ok) { mism += 1; eprintln!("case {i}: hook mismatch"); }
+                t
+            }
             Ok(Err(e)) => { builderr += 1; if builderr < 4 { eprintln!("case {i}: build error {e}"); } continue; }
             Err(p) => { eprintln!("case {i}: host panic {p}"); continue; }
         };
         let plain = run_plain(&scn.world, &scn.tx).unwrap();
         let d = tr.compare_plain(&plain);
-        if !d.is_empty() { mism += 1; eprintln!("case {i}: stepwise != plain: {d:?}"); }
+        if !d.is_empty() && tr.final_state != FinalState::StepLimit { mism += 1; eprintln!("case {i}: stepwise != plain: {d:?}"); }
         steps += tr.steps.len();
         for s in &tr.steps {
             *ops.entry(s.mnemonic.clone()).or_insert(0) += 1;
